@@ -22,7 +22,25 @@ func Setup() { common.Setup() }
 // it); configured observation domain; export time is the wall-clock second of
 // sending; exactly one Write whose length is the returned count and the
 // header's length field.
-func Check_SeqStep() {
+func Check_SeqStep() { seqStep(false) }
+
+// Check_SeqStepFixedClock: the same steps with a concrete clock that stands
+// 600 ms into a second (engine: fixed instants; native: the harness waits for
+// that part of the second), so that an export time that is rounded instead of
+// truncated shows.
+func Check_SeqStepFixedClock() { seqStep(true) }
+
+func waitForLateHalf() {
+	for {
+		ns := time.Now().Nanosecond()
+		if ns >= 550_000_000 && ns <= 800_000_000 {
+			return
+		}
+		time.Sleep(20 * time.Millisecond)
+	}
+}
+
+func seqStep(fixedClock bool) {
 	s0 := sx.U32("seq0")
 	domain := sx.U32("domain")
 	conn := &common.FakeConn{}
@@ -45,9 +63,27 @@ func Check_SeqStep() {
 	expected := s0
 	for i := 0; i < steps; i++ {
 		before := len(conn.Writes)
-		isData := sx.Choose("kind", 2) == 1
+		kind := sx.Choose("kind", 3)
+		isData := kind == 1
+		if fixedClock && sx.Native() {
+			waitForLateHalf()
+		}
 		t0 := time.Now()
 		var n int
+		if kind == 2 {
+			// a template refresh tick (UDP): its messages obey the same bookkeeping
+			err = ep.VerifSendRefreshedTemplates()
+			t1 := time.Now()
+			sx.Assert(err == nil, "refresh-ok")
+			sx.Assert(len(conn.Writes) == before+1, "refresh-one-message-per-template")
+			w := conn.Writes[before]
+			sx.Assert(sx.And(ref.GetU16(w, 0) == 10, int(ref.GetU16(w, 2)) == len(w), ref.GetU32(w, 8) == expected, ref.GetU32(w, 12) == domain), "refreshed-template-header")
+			et := int64(ref.GetU32(w, 4))
+			sx.Assert(sx.And(et >= t0.Unix(), et <= t1.Unix()), "export-time-is-wall-clock-second")
+			sx.Assert(ep.VerifSeq() == expected, "refresh-does-not-advance")
+			sx.Reach("refresh")
+			continue
+		}
 		if isData {
 			r := sx.Range("records", 0, 3)
 			recs := make([][]common.Val, r)
@@ -88,5 +124,6 @@ func Check_SeqStep() {
 }
 
 var Table = map[string]runner.Entry{
-	"Check_SeqStep": {Setup: Setup, Fn: Check_SeqStep},
+	"Check_SeqStep":           {Setup: Setup, Fn: Check_SeqStep},
+	"Check_SeqStepFixedClock": {Setup: Setup, Fn: Check_SeqStepFixedClock},
 }
